@@ -6,6 +6,7 @@ import (
 	"golang.org/x/tools/go/ssa"
 	"fmt"
 	"go/ast"
+	"go/constant"
 	"go/token"
 	"go/types"
 	"strings"
@@ -282,271 +283,6 @@ func containsCallTo(info *types.Info, n ast.Node, pred func(o types.Object, call
 	return found
 }
 
-func ruleLoaderCycle(c *Ctx) {
-	li := analyseLoader(c, "G-ANCESTOR")
-	if li == nil {
-		return
-	}
-	info := li.pk.TypesInfo
-	// --- G-ANCESTOR: every mark of the ancestor set is removed on every exit
-	nMarks := 0
-	for _, f := range li.pk.Syntax {
-		for _, d := range f.Decls {
-			fd, ok := d.(*ast.FuncDecl)
-			if !ok || fd.Body == nil {
-				continue
-			}
-			fname := c.P.declName(fd)
-			ast.Inspect(fd.Body, func(n ast.Node) bool {
-				as, ok := n.(*ast.AssignStmt)
-				if !ok || len(as.Lhs) != 1 {
-					return true
-				}
-				ix, ok := ast.Unparen(as.Lhs[0]).(*ast.IndexExpr)
-				if !ok || fieldObjOf(info, ix.X) != li.ancestorFd {
-					return true
-				}
-				nMarks++
-				keyStr := exprStr(c.P.Fset, ix.Index)
-				isRemoval := func(x ast.Node) bool {
-					return containsCallTo(info, x, func(o types.Object, call *ast.CallExpr) bool {
-						return identOf(call.Fun).Name == "delete" && len(call.Args) == 2 && fieldObjOf(info, call.Args[0]) == li.ancestorFd && exprStr(c.P.Fset, call.Args[1]) == keyStr
-					})
-				}
-				// idiom 1: `defer delete(M, k)` anywhere in the function after which no mark exists
-				deferred := false
-				ast.Inspect(fd.Body, func(x ast.Node) bool {
-					if ds, ok := x.(*ast.DeferStmt); ok && isRemoval(ds.Call) {
-						deferred = true
-					}
-					return true
-				})
-				okRemoved := deferred
-				if !deferred {
-					g := cfgOf(fd)
-					okRemoved = !pathAvoiding(g, as, isRemoval)
-				}
-				c.check(okRemoved, "G-ANCESTOR", fname, "ancestor mark removed on exit", as.Pos(),
-					"the mark placed on entry is removed on every exit (ancestor-stack discipline)",
-					"a file is marked in the set tested by the cycle check but the mark is not removed on every exit: 'currently being included' degenerates to 'seen before', so a file reached twice along different acyclic paths (a diamond) is reported as a cycle")
-				return true
-			})
-		}
-	}
-	c.census("G-ANCESTOR", "marks of the ancestor set", nMarks, 1)
-
-	// --- G-GUARD: every call into the recursion made by the function holding the cycle test is preceded by that test
-	sname := c.P.declName(li.single)
-	gSingle := cfgOf(li.single)
-	nRec := 0
-	ast.Inspect(li.single.Body, func(n ast.Node) bool {
-		call, ok := n.(*ast.CallExpr)
-		if !ok {
-			return true
-		}
-		o, ok := calleeOf(info, call).(*types.Func)
-		if !ok {
-			return true
-		}
-		d := c.P.declOf[o]
-		if d == nil || !li.sccFuncs[d] {
-			return true
-		}
-		nRec++
-		// every path from the entry of the include step to the call evaluates the cycle test first
-		okG := mustPassBefore(gSingle, call, func(x ast.Node) bool { return nodeCovers(x, li.cycleCond) })
-		c.check(okG, "G-GUARD", sname, "recursion behind the cycle test", call.Pos(),
-			"the recursive load is only reached after the membership test that returns on a cycle",
-			"the recursive load can be reached without passing the cycle test first: a cyclic include graph recurses without bound")
-		return true
-	})
-	c.census("G-GUARD", "recursive calls in the include step", nRec, 1)
-
-	// --- G-ONCE: the "already loaded" set.  Role: a map tested by a top-level `if M[k] { return ... }` of the
-	// include step that is not the ancestor set.  A file is marked loaded exactly when it is recorded.
-	var loadedFd types.Object
-	var loadedCond ast.Expr
-	for _, g := range guardsIn(li.single.Body) {
-		if g.Cond == li.cycleCond {
-			continue
-		}
-		ix, ok := ast.Unparen(g.Cond).(*ast.IndexExpr)
-		if !ok {
-			continue
-		}
-		if t := info.TypeOf(ix.X); t != nil {
-			if _, isMap := t.Underlying().(*types.Map); isMap && len(g.Body) == 1 {
-				if _, isRet := g.Body[0].(*ast.ReturnStmt); isRet && fieldObjOf(info, ix.X) != li.ancestorFd {
-					loadedFd, loadedCond = fieldObjOf(info, ix.X), g.Cond
-				}
-			}
-		}
-	}
-	isFilesStore := func(x ast.Node) bool {
-		found := false
-		ast.Inspect(x, func(y ast.Node) bool {
-			if as, ok := y.(*ast.AssignStmt); ok {
-				for _, l := range as.Lhs {
-					if ix, ok := ast.Unparen(l).(*ast.IndexExpr); ok {
-						if se, ok := ast.Unparen(ix.X).(*ast.SelectorExpr); ok && se.Sel.Name == "Files" {
-							found = true
-						}
-					}
-				}
-			}
-			return true
-		})
-		return found
-	}
-	if loadedFd == nil {
-		c.finding("G-ONCE", sname, "already-loaded test", li.single.Pos(), "the include step has no test of a set of already loaded files: a file reached along two acyclic paths is loaded and listed twice")
-	} else {
-		c.ok("G-ONCE", sname, "already-loaded test", loadedCond.Pos(), "a file already part of the result is skipped without an error")
-		g := gSingle
-		nMark := 0
-		ast.Inspect(li.single.Body, func(n ast.Node) bool {
-			as, ok := n.(*ast.AssignStmt)
-			if !ok || len(as.Lhs) != 1 {
-				return true
-			}
-			ix, ok := ast.Unparen(as.Lhs[0]).(*ast.IndexExpr)
-			if !ok || fieldObjOf(info, ix.X) != loadedFd {
-				return true
-			}
-			nMark++
-			escapes := pathAvoiding(g, as, isFilesStore)
-			c.check(!escapes, "G-ONCE", sname, "marked loaded only when recorded", as.Pos(),
-				"every path from the 'loaded' mark to the exit records the file in the result",
-				"a file is marked as loaded on a path that can still return without recording it (missing, oversized or too deep): later include directives naming it are silently skipped and a reachable file is missing from the result")
-			return true
-		})
-		// every store into Files is preceded, on every path, by the already-loaded test and by the mark
-		isLoadedMark := func(x ast.Node) bool {
-			as, ok := x.(*ast.AssignStmt)
-			if !ok || len(as.Lhs) != 1 {
-				return false
-			}
-			ix, ok := ast.Unparen(as.Lhs[0]).(*ast.IndexExpr)
-			return ok && fieldObjOf(info, ix.X) == loadedFd
-		}
-		ast.Inspect(li.single.Body, func(n ast.Node) bool {
-			if st, ok := n.(*ast.AssignStmt); ok && isFilesStore(st) {
-				marked := mustPassBefore(g, st, isLoadedMark)
-				tested := mustPassBefore(g, st, func(x ast.Node) bool { return nodeCovers(x, loadedCond) })
-				c.check(marked && tested, "G-ONCE", sname, "recorded only once", st.Pos(),
-					"recording a file is preceded by the already-loaded test and the mark", "a file is recorded in the result without being tested against and marked in the set of loaded files first: it can be recorded again through another include path")
-			}
-			return true
-		})
-		c.census("G-ONCE", "marks of the loaded set in the include step", nMark, 1)
-	}
-	// the cycle test's key is the file about to be loaded: the same expression is later marked/loaded
-	// --- G-DEPTH: the value compared with the depth limit is the size of the ancestor set
-	nDepth := 0
-	for fd := range li.sccFuncs {
-		fname := c.P.declName(fd)
-		ast.Inspect(fd.Body, func(n ast.Node) bool {
-			be, ok := n.(*ast.BinaryExpr)
-			if !ok {
-				return true
-			}
-			var other ast.Expr
-			if se, ok := ast.Unparen(be.Y).(*ast.SelectorExpr); ok && se.Sel.Name == "MaxIncludeDepth" {
-				other = be.X
-			} else if se, ok := ast.Unparen(be.X).(*ast.SelectorExpr); ok && se.Sel.Name == "MaxIncludeDepth" {
-				other = be.Y
-			}
-			if other == nil {
-				return true
-			}
-			nDepth++
-			okD := false
-			if call, ok := ast.Unparen(other).(*ast.CallExpr); ok && identOf(call.Fun).Name == "len" && len(call.Args) == 1 {
-				okD = fieldObjOf(info, call.Args[0]) == li.ancestorFd
-			} else if id, ok := ast.Unparen(other).(*ast.Ident); ok {
-				// a depth parameter that every recursive call passes as depth+1
-				if v, ok := info.Uses[id].(*types.Var); ok && isParamOfDecl(info, fd, v) {
-					okD = depthParamIncremented(c.P, info, li, v)
-				}
-			}
-			c.check(okD, "G-DEPTH", fname, "depth limit compared with the ancestor depth", be.Pos(),
-				"the depth limit is compared with the length of the include stack",
-				"the value compared with the include depth limit ("+exprStr(c.P.Fset, other)+") is not the depth of the include stack: a wide, shallow include tree trips the depth limit")
-			return true
-		})
-	}
-	c.census("G-DEPTH", "comparisons with the include depth limit", nDepth, 1)
-
-	// --- G-CONTINUE
-	lname := c.P.declName(li.loopFd)
-	bad := ""
-	ast.Inspect(li.loop.Body, func(n ast.Node) bool {
-		switch s := n.(type) {
-		case *ast.FuncLit:
-			return false
-		case *ast.ReturnStmt:
-			bad = "return at " + c.P.pos(s.Pos())
-		case *ast.BranchStmt:
-			if s.Tok == token.BREAK || s.Tok == token.GOTO {
-				// a break inside a nested loop/switch/select is local; the include loop has a nested loop over glob matches
-				if !insideNestedBreakable(li.loop.Body, s) {
-					bad = s.Tok.String() + " at " + c.P.pos(s.Pos())
-				}
-			}
-		}
-		return true
-	})
-	c.check(bad == "", "G-CONTINUE", lname, "include loop never aborts", li.loop.Pos(),
-		"a failing include does not stop the remaining includes from loading (no return/break in the loop)",
-		"the loop over include directives can be left early ("+bad+"): one missing, oversized or too-deep include stops the remaining includes from loading")
-	nErr := 0
-	for fd := range li.sccFuncs {
-		fname := c.P.declName(fd)
-		ast.Inspect(fd.Body, func(n ast.Node) bool {
-			cl, ok := n.(*ast.CompositeLit)
-			if !ok {
-				return true
-			}
-			t := info.TypeOf(cl)
-			if t == nil || !strings.HasSuffix(types.TypeString(t, nil), "include.LoadError") {
-				return true
-			}
-			if _, isStruct := t.Underlying().(*types.Struct); !isStruct {
-				return true // a slice literal of errors: its elements are visited on their own
-			}
-			nErr++
-			hasRange := false
-			kind := ""
-			for _, el := range cl.Elts {
-				if kv, ok := el.(*ast.KeyValueExpr); ok {
-					if identOf(kv.Key).Name == "Range" {
-						// value must be the directive's range: `<x>.Range` of an ast.Include or a parameter of type ast.Range
-						switch v := ast.Unparen(kv.Value).(type) {
-						case *ast.SelectorExpr:
-							if rt := info.TypeOf(v.X); rt != nil && strings.HasSuffix(types.TypeString(rt, nil), "ast.Include") {
-								hasRange = true
-							}
-						case *ast.Ident:
-							if pv, ok := info.Uses[v].(*types.Var); ok && isParamOfDecl(info, fd, pv) {
-								hasRange = true
-							}
-						}
-					}
-					if identOf(kv.Key).Name == "Kind" {
-						kind = exprStr(c.P.Fset, kv.Value)
-					}
-				}
-			}
-			c.check(hasRange, "G-CONTINUE", fname, "load error "+kind+" carries the directive's range", cl.Pos(),
-				"error is reported on the include directive that names the file",
-				"a load error ("+kind+") built while processing an include does not carry the include directive's range: the diagnostic is not attached to the directive that names the file")
-			return true
-		})
-	}
-	c.census("G-CONTINUE", "load errors built on the include recursion", nErr, 4)
-	ruleCanonicalPaths(c)
-}
-
 func insideNestedBreakable(root ast.Node, target ast.Node) bool {
 	path := pathTo(root, target)
 	for _, n := range path[1:] {
@@ -572,93 +308,15 @@ func isParamOfDecl(info *types.Info, fd *ast.FuncDecl, v *types.Var) bool {
 	return false
 }
 
-func depthParamIncremented(p *Prog, info *types.Info, li *loaderInfo, v *types.Var) bool {
-	ok := true
-	n := 0
-	for fd := range li.sccFuncs {
-		ast.Inspect(fd.Body, func(x ast.Node) bool {
-			call, isCall := x.(*ast.CallExpr)
-			if !isCall {
-				return true
-			}
-			o, isFn := calleeOf(info, call).(*types.Func)
-			if !isFn {
-				return true
-			}
-			d := p.declOf[o]
-			if d == nil || !li.sccFuncs[d] {
-				return true
-			}
-			// find the argument bound to a parameter named like v in d
-			i := 0
-			for _, f := range d.Type.Params.List {
-				for _, nm := range f.Names {
-					if nm.Name == v.Name() && i < len(call.Args) {
-						n++
-						s := exprStr(p.Fset, call.Args[i])
-						if !(s == v.Name()+" + 1" || s == v.Name()+"+1" || s == v.Name()) {
-							ok = false
-						}
-					}
-					i++
-				}
-			}
-			return true
-		})
-	}
-	return ok && n > 0
-}
-
 // ruleLoaderCache (C11): G-CACHEPATH and G-INVALIDATE.
 func ruleLoaderCache(c *Ctx) {
-	li := analyseLoader(c, "G-CACHEPATH")
-	if li == nil {
+	ls := ruleLoaderCacheSSA(c)
+	if ls == nil {
 		return
 	}
-	info := li.pk.TypesInfo
-	// G-CACHEPATH: every store into ResolvedJournal.Files on the include recursion is followed, on every
-	// path to the exit, by a call into the recursion (the file's own includes are processed) - whether the
-	// parse result came from the cache or from disk.
-	nRec := 0
-	for fd := range li.sccFuncs {
-		fname := c.P.declName(fd)
-		ast.Inspect(fd.Body, func(n ast.Node) bool {
-			as, ok := n.(*ast.AssignStmt)
-			if !ok || len(as.Lhs) != 1 {
-				return true
-			}
-			ix, ok := ast.Unparen(as.Lhs[0]).(*ast.IndexExpr)
-			if !ok {
-				return true
-			}
-			se, ok := ast.Unparen(ix.X).(*ast.SelectorExpr)
-			if !ok || se.Sel.Name != "Files" {
-				return true
-			}
-			if t := info.TypeOf(se.X); t == nil || !strings.HasSuffix(types.TypeString(t, nil), "include.ResolvedJournal") {
-				return true
-			}
-			nRec++
-			g := cfgOf(fd)
-			escapes := pathAvoiding(g, as, func(x ast.Node) bool {
-				return containsCallTo(info, x, func(o types.Object, call *ast.CallExpr) bool {
-					fn, ok := o.(*types.Func)
-					if !ok {
-						return false
-					}
-					d := c.P.declOf[fn]
-					return d != nil && li.sccFuncs[d]
-				})
-			})
-			c.check(!escapes, "G-CACHEPATH", fname, "recorded file's own includes are followed", as.Pos(),
-				"every path that records an included file goes on to process that file's include directives (cache hit and miss alike)",
-				"an included file is recorded in the result on a path that returns without processing the file's own include directives (e.g. a cache-hit short cut): files two levels down vanish from the second load on")
-			return true
-		})
-	}
-	c.census("G-CACHEPATH", "sites recording an included file", nRec, 1)
+	lpk := c.P.ByRel["internal/include"]
 	// what is cached depends only on the file's own content: the cache value type must not hold a ResolvedJournal
-	if lo := li.pk.Types.Scope().Lookup("Loader"); lo != nil {
+	if lo := lpk.Types.Scope().Lookup("Loader"); lo != nil {
 		st, _ := lo.Type().Underlying().(*types.Struct)
 		for i := 0; st != nil && i < st.NumFields(); i++ {
 			if m, ok := st.Field(i).Type().Underlying().(*types.Map); ok {
@@ -669,140 +327,11 @@ func ruleLoaderCache(c *Ctx) {
 			}
 		}
 	}
-	// G-CACHEINDEP: verdicts that do not depend on the file's content (cycle, depth limit, already loaded)
-	// are taken outside any branch on the outcome of the cache lookup.
-	var cacheVars []types.Object
-	sname := c.P.declName(li.single)
-	// the cache: a map field of the loader that is read by the include step, directly or in a helper it calls
-	// (functions on the include recursion itself are not helpers of the step).
 	var cacheField types.Object
-	isCacheLookup := func(finfo *types.Info, e ast.Expr) (types.Object, bool) {
-		ix, ok := ast.Unparen(e).(*ast.IndexExpr)
-		if !ok {
-			return nil, false
-		}
-		se, ok := ast.Unparen(ix.X).(*ast.SelectorExpr)
-		if !ok {
-			return nil, false
-		}
-		if t := finfo.TypeOf(se.X); t == nil || !strings.HasSuffix(types.TypeString(t, nil), "include.Loader") {
-			return nil, false
-		}
-		if _, isMap := finfo.TypeOf(ix.X).Underlying().(*types.Map); !isMap {
-			return nil, false
-		}
-		return finfo.Uses[se.Sel], true
+	if ls.cache != nil {
+		cacheField = ls.cache
 	}
-	var lookupHelper func(fd *ast.FuncDecl, depth int) bool
-	lookupHelper = func(fd *ast.FuncDecl, depth int) bool {
-		if fd == nil || fd.Body == nil || li.sccFuncs[fd] || depth > 3 {
-			return false
-		}
-		found := false
-		ast.Inspect(fd.Body, func(n ast.Node) bool {
-			switch x := n.(type) {
-			case *ast.AssignStmt:
-				for _, r := range x.Rhs {
-					if f, ok := isCacheLookup(info, r); ok {
-						cacheField = f
-						found = true
-					}
-				}
-			case *ast.CallExpr:
-				if o, ok := calleeOf(info, x).(*types.Func); ok {
-					if d := c.P.declOf[o]; d != nil && c.P.pkgOf[d] == li.pk && lookupHelper(d, depth+1) {
-						found = true
-					}
-				}
-			}
-			return true
-		})
-		return found
-	}
-	bindLhs := func(as *ast.AssignStmt) {
-		for _, l := range as.Lhs {
-			if id, ok := l.(*ast.Ident); ok && id.Name != "_" {
-				if o := info.Defs[id]; o != nil {
-					cacheVars = append(cacheVars, o)
-				} else if o := info.Uses[id]; o != nil {
-					cacheVars = append(cacheVars, o)
-				}
-			}
-		}
-	}
-	ast.Inspect(li.single.Body, func(n ast.Node) bool {
-		as, ok := n.(*ast.AssignStmt)
-		if !ok || len(as.Rhs) != 1 {
-			return true
-		}
-		if f, ok := isCacheLookup(info, as.Rhs[0]); ok {
-			cacheField = f
-			bindLhs(as)
-			return true
-		}
-		if call, ok := ast.Unparen(as.Rhs[0]).(*ast.CallExpr); ok {
-			if o, ok := calleeOf(info, call).(*types.Func); ok {
-				if d := c.P.declOf[o]; d != nil && c.P.pkgOf[d] == li.pk && lookupHelper(d, 0) {
-					bindLhs(as)
-				}
-			}
-		}
-		return true
-	})
-	c.census("G-CACHEINDEP", "variables bound by the cache lookup", len(cacheVars), 1)
-	dependsOnCache := func(e ast.Expr) bool {
-		dep := false
-		ast.Inspect(e, func(y ast.Node) bool {
-			if id, ok := y.(*ast.Ident); ok {
-				for _, cv := range cacheVars {
-					if info.Uses[id] == cv {
-						dep = true
-					}
-				}
-			}
-			return true
-		})
-		return dep
-	}
-	nVerdict := 0
-	isGuardCond := map[ast.Expr]bool{}
-	for _, g := range guardsIn(li.single.Body) {
-		isGuardCond[ast.Unparen(g.Cond)] = true
-	}
-	ast.Inspect(li.single.Body, func(n ast.Node) bool {
-		var what string
-		switch x := n.(type) {
-		case *ast.BinaryExpr:
-			for _, side := range []ast.Expr{x.X, x.Y} {
-				if se, ok := ast.Unparen(side).(*ast.SelectorExpr); ok && se.Sel.Name == "MaxIncludeDepth" {
-					what = "depth-limit test"
-				}
-			}
-		case *ast.IndexExpr:
-			if isGuardCond[x] {
-				if t := info.TypeOf(x.X); t != nil {
-					if m, isMap := t.Underlying().(*types.Map); isMap && types.TypeString(m.Elem(), nil) == "bool" {
-						what = "membership test " + exprStr(c.P.Fset, x)
-					}
-				}
-			}
-		}
-		if what == "" {
-			return true
-		}
-		nVerdict++
-		bad := ""
-		for _, fr := range enclosingConds(c.P, info, li.single.Body, n) {
-			if fr.Cond != nil && dependsOnCache(fr.Cond) {
-				bad = exprStr(c.P.Fset, fr.Cond)
-			}
-		}
-		c.check(bad == "", "G-CACHEINDEP", sname, what+" independent of the cache", n.Pos(),
-			"the verdict is taken whether or not the file's parse result is cached",
-			"the "+what+" is only evaluated under `"+bad+"`, i.e. depending on whether the file happens to be cached: the result of a load depends on what was loaded before")
-		return true
-	})
-	c.census("G-CACHEINDEP", "content-independent verdicts in the include step", nVerdict, 3)
+	li := struct{ pk *pkgT }{lpk}
 	// G-STATE: the only state a Loader carries from one load to the next is the per-file parse cache.
 	if lo := li.pk.Types.Scope().Lookup("Loader"); lo != nil {
 		st, _ := lo.Type().Underlying().(*types.Struct)
@@ -944,8 +473,10 @@ func ruleCanonicalPaths(c *Ctx) {
 		}
 		return false
 	}
-	var canon func(v ssa.Value, seen map[ssa.Value]bool) bool
-	canon = func(v ssa.Value, seen map[ssa.Value]bool) bool {
+	// canon(v, at): v is canonical on the paths that reach block `at` (the conditions controlling `at` select
+	// which return statements of a helper can have produced v)
+	var canon func(v ssa.Value, at *ssa.BasicBlock, seen map[ssa.Value]bool, depth int) bool
+	canon = func(v ssa.Value, at *ssa.BasicBlock, seen map[ssa.Value]bool, depth int) bool {
 		if seen[v] {
 			return true
 		}
@@ -956,17 +487,56 @@ func ruleCanonicalPaths(c *Ctx) {
 		case *ssa.Call:
 			return canonCall(x)
 		case *ssa.Extract:
-			if call, ok := x.Tuple.(*ssa.Call); ok {
-				if canonCall(call) {
-					return true
-				}
-				if cal := call.Common().StaticCallee(); cal != nil && cal.Pkg != nil && cal.Pkg.Pkg.Path() == "os" && cal.Name() == "UserHomeDir" {
-					return true // the environment's home directory, taken as given
+			call, ok := x.Tuple.(*ssa.Call)
+			if !ok {
+				return false
+			}
+			if canonCall(call) {
+				return true
+			}
+			cal := call.Common().StaticCallee()
+			if cal != nil && cal.Pkg != nil && cal.Pkg.Pkg.Path() == "os" && cal.Name() == "UserHomeDir" {
+				return true // the environment's home directory, taken as given
+			}
+			if cal == nil || cal.Blocks == nil || !inModule(cal) || depth > 2 {
+				return false
+			}
+			// a module helper: every return statement compatible with the tests made on the helper's other results
+			want := map[int]bool{} // result index -> required boolean value
+			if at != nil {
+				for _, cc := range controlCondsPol(at) {
+					if ex, ok := cc.Cond.(*ssa.Extract); ok && ex.Tuple == x.Tuple {
+						want[ex.Index] = cc.Taken
+					}
 				}
 			}
+			for _, b := range cal.Blocks {
+				for _, ins := range b.Instrs {
+					r, ok := ins.(*ssa.Return)
+					if !ok || x.Index >= len(r.Results) {
+						continue
+					}
+					compatible := true
+					for j, w := range want {
+						if j < len(r.Results) {
+							if k, ok := r.Results[j].(*ssa.Const); ok && k.Value != nil && k.Value.Kind() == constant.Bool && constant.BoolVal(k.Value) != w {
+								compatible = false
+							}
+						}
+					}
+					if compatible && !canon(r.Results[x.Index], r.Block(), map[ssa.Value]bool{}, depth+1) {
+						return false
+					}
+				}
+			}
+			return true
 		case *ssa.Phi:
-			for _, e := range x.Edges {
-				if !canon(e, seen) {
+			for i, e := range x.Edges {
+				var pb *ssa.BasicBlock
+				if i < len(x.Block().Preds) {
+					pb = x.Block().Preds[i]
+				}
+				if !canon(e, pb, seen, depth) {
 					return false
 				}
 			}
@@ -1000,7 +570,7 @@ func ruleCanonicalPaths(c *Ctx) {
 		for i, r := range rets {
 			n++
 			desc := fmt.Sprintf("returned path #%d is canonical", i+1)
-			c.check(canon(r.Results[0], map[ssa.Value]bool{}), "G-CANON", funcName(f), desc, r.Pos(),
+			c.check(canon(r.Results[0], r.Block(), map[ssa.Value]bool{}, 0), "G-CANON", funcName(f), desc, r.Pos(),
 				"the returned path is the result of filepath.Clean / Join / Abs on every path", "the resolver can return a path that did not pass filepath.Clean/Join/Abs (e.g. an absolute include as written): `dir/../a` and `dir/./a` then name different files to the visited set, the cache and the result, so a file is loaded twice or a cycle goes unnoticed")
 		}
 	}
